@@ -21,7 +21,10 @@ RULE = ('cases: seeded timelines of 6..28 events over a device with 6 objects (a
         'returns to the old value and bursts.  Observables per event: ack/error code, exceptions, the sorted notifications issued '
         '(client, process, object, confirmed?, time remaining, value, flags; the direct check also compares them with what the '
         'subscriber stacks received) and the sorted active-subscription list.  non-trivial = the timeline produced >= 1 change '
-        'notification; distinct by (event list, silent subscribers).')
+        'notification; distinct by (event list, silent subscribers).  Crowd family (60 cases in the tie, 550 in the direct check): 9..16 '
+        'concurrent subscriptions with distinct lifetimes laid out late/early by heap subtree, descending or interleaved, all made in '
+        'one instant; 1..4 cancellations / renewals of entries that are not the earliest; then quiet clock jumps landing just behind '
+        'successive expiries (a staircase with one active-list read per step, or one long jump followed by changes on every object).')
 TRUSTED = ['model coq/theories/Cov.v written by hand after service/cov.py (Subscription, COVDetection, COVIncrementCriteria, '
            'PulseConverterCriteria, ActiveCOVSubscriptions, ChangeOfValueServices.do_SubscribeCOVRequest / cancel_subscription), '
            'service/detect.py (DetectionMonitor.property_change, _execute) and object.py Property.WriteProperty monitors; tie = correspondence',
@@ -29,7 +32,8 @@ TRUSTED = ['model coq/theories/Cov.v written by hand after service/cov.py (Subsc
            'functions one at a time on request, everything else (LAN delivery tasks, IOCB queue triggers) to quiescence after every event',
            'binary32/binary64 arithmetic of the increment test and of taskTime - now: sampled on binary-exact quarters / eighths only']
 ASSUMPTIONS = ['present values and increments are multiples of 1/4, times multiples of 1/8 s (exact in binary floating point)',
-               'time advances only with an empty deferred queue (core.run never sleeps while deferred functions are pending)',
+               'time advances only with an empty deferred queue (core.run never sleeps while deferred functions are pending); the driver '
+               'sleeps until the task at the ROOT of the TaskManager heap is due, exactly what TaskManager.get_next_task looks at',
                'silent subscribers stay silent for the whole timeline (4 transmissions 3 s apart, then abort); the model compares what '
                'the COV service issues, the direct check what arrives',
                'one device, one LAN, local station addresses; SubscribeCOVProperty only for presentValue, without covIncrement']
@@ -315,9 +319,27 @@ class Sim:
     def cancel(self, c, proc, oid, now=False):
         return self.subscribe(c, proc, oid, None, None, now=now)
 
+    def _advance_clock(self, seconds):
+        """let virtual time pass the way core.run does: sleep until the task at the ROOT of the scheduler's heap is due
+        (TaskManager.get_next_task looks at nothing else), run what is due, repeat"""
+        errors, n = [], 0
+        target = self.clock.now[0] + seconds
+        while True:
+            tasks = self.clock.tm.tasks
+            nd = tasks[0][0] if tasks else None
+            if nd is None or nd > target:
+                break
+            self.clock.now[0] = max(self.clock.now[0], nd)
+            errors += self._drain_q()
+            n += 1
+            if n > 200000:
+                raise RuntimeError('advance: step limit')
+        self.clock.now[0] = target
+        return errors + self._drain_q()
+
     def advance(self, ticks):
         errs = self._drain_q()
-        errs += self.clock.advance(ticks / TICKS)
+        errs += self._advance_clock(ticks / TICKS)
         self.ticks += ticks
         assert self.clock.now[0] == T0 + self.ticks / TICKS
         assert not self._cov_items()
@@ -377,7 +399,7 @@ def run_impl(cfg, events, silent=()):
     obs = [sim.run_event(e) for e in events]
     if silent:
         # let every retry run out (4 transmissions x 3 s per queued confirmed notification), then collect what arrived
-        sim.clock.advance(15.0 * (1 + sum(len(o['notifs']) for o in obs)))
+        sim._advance_clock(15.0 * (1 + sum(len(o['notifs']) for o in obs)))
         obs.append({'ev': 'flush', 'received': sorted(sim._canon_notif(*n) for n in sim.notifs)})
     return obs
 
@@ -638,6 +660,144 @@ def fixed_timelines():
     return out
 
 
+def crowd_base(rng):
+    """the subscribe phase of a crowd timeline: (cfg, keys, lifetimes, subscribe events)"""
+    cfg = gen_cfg(rng, period=0)
+    cov = [i for i, c in enumerate(cfg) if c[2] != KNOCOV]
+    n = rng.randrange(9, 17)
+    keys = rng.sample([(c, p, oid_of(cfg[i][0], cfg[i][1])) for c in (2, 3, 4) for p in (1, 2) for i in cov], n)
+    pattern = rng.choice(['tree', 'tree', 'tree-mirror', 'desc', 'interleaved', 'random'])
+    small = sorted(rng.sample(range(4, 60), n))
+    big = sorted(rng.sample(range(90, 250), n))
+    lifes = []
+    if pattern in ('tree', 'tree-mirror'):
+        # heap index k (scheduling order): the root early, then the left subtree late and the right one early (or mirrored)
+        si, bi = 0, 0
+        for k in range(n):
+            side, j = None, k
+            while j > 0:
+                side = j
+                j = (j - 1) // 2
+            late = (side == 1) if pattern == 'tree' else (side == 2)
+            if k > 0 and late:
+                lifes.append(big[bi]); bi += 1
+            else:
+                lifes.append(small[si]); si += 1
+    elif pattern == 'desc':
+        lifes = sorted(rng.sample(range(4, 250), n), reverse=True)
+    elif pattern == 'interleaved':
+        for k in range(n):
+            lifes.append(big[k // 2] if k % 2 == 0 else small[k // 2])
+    else:
+        lifes = rng.sample(range(4, 250), n)
+    events = [('S', c, p, o, 1 if rng.random() < 0.15 else 0, life) for (c, p, o), life in zip(keys, lifes)]
+    return cfg, keys, lifes, events
+
+
+def crowd_tail(rng, cfg, keys, lifes, events, victims, land=None):
+    """victims: [(index, op)] with op in 'cancel' | 'indefinite' | 'longer'; then ONE quiet jump across several expiries,
+    changes on every subscribed object, a drain and a read of the active list"""
+    events = list(events)
+    lifes = list(lifes)
+    n = len(keys)
+    elapsed = 0
+    if rng.random() < 0.5:
+        elapsed = rng.choice([1, 8, 16, 24])
+        events.append(('A', elapsed))
+    removed = set()
+    for k, op in victims:
+        c, p, o = keys[k]
+        if op == 'cancel':
+            events.append(('X', c, p, o))
+            removed.add(k)
+        elif op == 'indefinite':
+            events.append(('S', c, p, o, 0, rng.choice([0, None])))
+            lifes[k] = 10 ** 6
+        else:
+            nl = rng.randrange(260, 400)
+            events.append(('S', c, p, o, 0, nl))
+            lifes[k] = nl
+    alive = sorted(lifes[k] for k in range(n) if k not in removed and lifes[k] < 10 ** 6)
+    if len(alive) >= 2:
+        # land in the widest gap of the upper half of the expiries (between the early and the late cluster if there are two)
+        gaps = [(alive[m + 1] - alive[m], m) for m in range(len(alive) // 3, len(alive) - 1)]
+        if land is not None:
+            m = min(land, len(alive) - 2)
+        else:
+            m = max(gaps)[1] if rng.random() < 0.7 else rng.randrange(0, len(alive) - 1)
+        jump = alive[m] * TICKS - elapsed + rng.choice([1, 8, 20, 40])
+    else:
+        jump = 400
+    events.append(('A', max(1, jump)))
+    oi = {oid_of(c[0], c[1]): i for i, c in enumerate(cfg)}
+    if rng.random() < 0.7:
+        for o in sorted(set(o for (_, _, o) in keys)):
+            i = oi[o]
+            kind, t = cfg[i][2], cfg[i][0]
+            if kind in (KINC, KPULSE):
+                v = cfg[i][3] + 2 * cfg[i][5] + 7
+            elif t == 'binaryValue':
+                v = 1 - cfg[i][3]
+            elif t == 'loadControl':
+                v = (cfg[i][3] + 1) % 4
+            else:
+                v = cfg[i][3] % 5 + 1
+            events.append(('W', i, 'pv', v))
+        events.append(('D',))
+    events.append(('R', rng.choice([2, 3, 4])))
+    if rng.random() < 0.5:
+        events.append(('A', rng.choice([16, 80, 400])))
+        events.append(('R', rng.choice([2, 3, 4])))
+    return events
+
+
+def gen_crowd(rng):
+    """many (9..16) concurrent subscriptions with distinct lifetimes, 1..3 renewals / cancellations of entries that are not the
+    earliest ones (their timer sits below the root of the scheduler's heap), ONE long quiet jump across several expiries,
+    then changes on every object and a read of the active list.  Lifetimes are laid out so that, in the order the expiry
+    tasks are scheduled, whole subtrees of the heap hold late expiries and others early ones (level-order late/early,
+    descending, interleaved): if the removal of a late entry does not repair the heap, an early one ends under a late
+    parent and its expiry is not seen in time."""
+    cfg, keys, lifes, events = crowd_base(rng)
+    order = sorted(range(len(keys)), key=lambda k: lifes[k])
+    victims = [(k, rng.choice(['cancel', 'cancel', 'indefinite', 'longer'])) for k in rng.sample(order[2:], rng.choice([1, 1, 2, 3]))]
+    return cfg, crowd_tail(rng, cfg, keys, lifes, events, victims)
+
+
+def gen_crowd_stairs(rng):
+    """crowd with 2..4 removals and then a staircase of quiet jumps, each landing just behind the next expiry and followed by
+    one read of the active list: an expiry task that got buried under a later one shows as a dead entry / negative time"""
+    cfg, keys, lifes, events = crowd_base(rng)
+    n = len(keys)
+    lifes = list(lifes)
+    events = list(events)
+    order = sorted(range(n), key=lambda k: lifes[k])
+    removed = set()
+    for k in rng.sample(order[1:], rng.choice([2, 3, 4])):
+        c, p, o = keys[k]
+        op = rng.choice(['cancel', 'cancel', 'indefinite', 'longer'])
+        if op == 'cancel':
+            events.append(('X', c, p, o))
+            removed.add(k)
+        elif op == 'indefinite':
+            events.append(('S', c, p, o, 0, rng.choice([0, None])))
+            lifes[k] = 10 ** 6
+        else:
+            nl = rng.randrange(260, 400)
+            events.append(('S', c, p, o, 0, nl))
+            lifes[k] = nl
+    alive = sorted(lifes[k] for k in range(n) if k not in removed and lifes[k] < 10 ** 6)
+    now = 0
+    for m in range(min(len(alive) - 1, rng.choice([3, 4, 5, 6]))):
+        target = alive[m] * TICKS + rng.choice([1, 8, 12])
+        if target <= now or target >= alive[m + 1] * TICKS:
+            continue
+        events.append(('A', target - now))
+        now = target
+        events.append(('R', rng.choice([2, 3, 4])))
+    return cfg, events
+
+
 def gen_any(rng, nmin=6, nmax=28):
     """(cfg, events, silent, kind): the mix of timeline families used by the correspondence and the direct check"""
     r = rng.random()
@@ -668,6 +828,9 @@ def cases(rng, tier):
     for k in range(n):
         cfg, ev, silent, kind = gen_any(rng)
         out.append(mk_case(cfg, ev, kind, silent))
+    for k in range(240 if tier == 'thorough' else 60):
+        cfg, ev = gen_crowd_stairs(rng) if k % 3 else gen_crowd(rng)
+        out.append(mk_case(cfg, ev, 'crowd'))
     return out
 
 
@@ -1050,6 +1213,13 @@ def direct(rng, tier, focus=()):
     for k in range(total):
         cfg, ev, silent, kind = gen_any(rng, nmin=8, nmax=34)
         one(cfg, ev, kind, silent)
+    # crowds: 9..16 concurrent subscriptions, removals from the middle of the timer heap, quiet jumps across the expiries
+    for k in range(2400 if tier == 'thorough' else 400):
+        cfg, ev = gen_crowd_stairs(rng)
+        one(cfg, ev, 'crowd-stairs')
+    for k in range(900 if tier == 'thorough' else 150):
+        cfg, ev = gen_crowd(rng)
+        one(cfg, ev, 'crowd-jump')
     return failures, {'evaluations': n, 'distinct_nontrivial': nontriv, 'exhaustive': False, 'timelines': hist, 'samples': samples}
 
 
